@@ -136,7 +136,7 @@ def _casts(table):
     def f(text):
         k = 0
         for expr, conv in table.items():
-            rx = re.escape(expr) + r"\s+as\s+f64\b"
+            rx = r"(?<![\w.])" + re.escape(expr) + r"\s+as\s+f64\b"
             text, kk = re.subn(rx, "F::%s(%s)" % (conv, expr), text)
             k += kk
         if re.search(r"\bas\s+f64\b", R.blank(text)):
@@ -359,7 +359,7 @@ def _expr_chain(text):
     pos = 0
     while True:
         b = R.blank(text)
-        m = re.compile(r"(\biproduct!\s*\()|(\.\s*iter\s*\(\s*\))|(\b(%s)\s*\()" % "|".join(ITER_SOURCES)).search(b, pos)
+        m = re.compile(r"(\biproduct!\s*\()|(\.\s*(?:into_)?iter\s*\(\s*\))|(\b(%s)\s*\()" % "|".join(ITER_SOURCES)).search(b, pos)
         if not m:
             return text, k
         if m.group(1):
@@ -414,6 +414,10 @@ def _expr_chain(text):
                 segs = segs[1:]
                 head.append("let s%d_ = &%s; for i%d_ in 0..s%d_.len() { for j%d_ in (i%d_ + 1)..s%d_.len() { let %s = (&s%d_[i%d_], &s%d_[j%d_]);" % (k, recv, k, k, k, k, k, e, k, k, k, k))
                 opens = 2
+            elif "into_iter" in b[m.start():m.end()]:
+                # by value (elements are Copy in the anchored code)
+                head.append("let s%d_ = %s; for i%d_ in 0..s%d_.len() { let %s = s%d_[i%d_];" % (k, recv, k, k, e, k, k))
+                opens = 1
             else:
                 head.append("let s%d_ = &%s; for i%d_ in 0..s%d_.len() { let %s = &s%d_[i%d_];" % (k, recv, k, k, e, k, k))
                 opens = 1
